@@ -169,8 +169,10 @@ def invalid_config(rng, res):
 
 def shard(shard, nshards, rng, tier, extra):
     res = Result()
+    import random
     for h in range((1500 if tier == 'quick' else 40000) // nshards):
-        run_history(rng, res, (shard, h))
+        hseed = rng.getrandbits(62)                     # every history has its own generator, so that it can be replayed alone
+        run_history(random.Random(hseed), res, hseed)
     for _ in range(5): view_write_through(rng, res)
     if shard == 0:
         inputs_unchanged(rng, res); invalid_config(rng, res)
@@ -180,4 +182,10 @@ def run(seed, tier):
     return run_sharded('c20', 'shard', 16, seed, tier)
 def classify(fl): return None
 def replay(payload):
-    return {'holds': True, 'failures': [], 'note': 'histories are replayed by re-running ./check C20 with the same VERIF_SEED'}
+    import random
+    res = Result(); c = payload['case']
+    if 'history' in c: run_history(random.Random(c['history']), res, c['history'])
+    elif 'i' in c: view_write_through(random.Random(0), res); view_write_through(random.Random(1), res)
+    elif 'container' in c: inputs_unchanged(None, res)
+    elif 'key' in c: invalid_config(None, res)
+    return {'holds': not res.failures, 'failures': res.failures}
